@@ -199,12 +199,12 @@ func (msg *message) bodySection(item *imap.FetchItemBodySection) []byte {
 	// Extract partial if any
 	b := buf.Bytes()
 	if partial := item.Partial; partial != nil {
-		end := partial.Offset + partial.Size
 		if partial.Offset > int64(len(b)) {
 			return nil
 		}
-		if end > int64(len(b)) {
-			end = int64(len(b))
+		end := int64(len(b))
+		if partial.Size < end-partial.Offset { // written this way to avoid an overflow
+			end = partial.Offset + partial.Size
 		}
 		b = b[partial.Offset:end]
 	}
